@@ -313,6 +313,44 @@ Definition rq_step (only_if_modified : bool) (kind : nat) (t : nat) (s : rq_st) 
 Definition rq_init : rq_st := mkRq false false false false 0 false false 0 0 0.
 Definition rq_rr : list nat := concat (repeat [0; 1; 2] 16).
 
+(* ================================================================== 4c. marks that arrive while an update is being sent (rfbserver.c)
+   rfbSendFramebufferUpdate takes the region to send out of cl->modifiedRegion BEFORE sending
+   ("That way, if anything that overlaps the region we're sending is updated, we'll be sure to do
+   another update later").  One pixel q inside the rectangle being sent:
+   thread 0 = application: writes q, then rfbMarkRectAsModified(q);
+   thread 1 = clientOutput: [compute update region, subtract it from modifiedRegion] [read q's row]
+              [deliver] [variant "subtract_again": subtract the sent box from modifiedRegion once more]
+              then, after the client's next incremental request, a second update if q is still marked. *)
+Record sk_st := mkSk {
+  sk_modq : bool;        (* q in cl->modifiedRegion *)
+  sk_written : bool;     (* the application has written the new value of q *)
+  sk_inflight : bool;    (* the row read for the update in flight has the new value *)
+  sk_client : bool;      (* the client shows the new value *)
+  sk_pcA : nat; sk_pcO : nat
+}.
+Scheme Equality for sk_st.
+Definition sk_step (subtract_again : bool) (t : nat) (s : sk_st) : option sk_st :=
+  match t with
+  | 0 => match sk_pcA s with
+         | 0 => Some (mkSk (sk_modq s) true (sk_inflight s) (sk_client s) 1 (sk_pcO s))
+         | 1 => Some (mkSk true (sk_written s) (sk_inflight s) (sk_client s) 2 (sk_pcO s))
+         | _ => None
+         end
+  | 1 => match sk_pcO s with
+         | 0 => Some (mkSk false (sk_written s) (sk_inflight s) (sk_client s) (sk_pcA s) 1)
+         | 1 => Some (mkSk (sk_modq s) (sk_written s) (sk_written s) (sk_client s) (sk_pcA s) 2)
+         | 2 => Some (mkSk (sk_modq s) (sk_written s) (sk_inflight s) (sk_client s || sk_inflight s) (sk_pcA s) 3)
+         | 3 => Some (mkSk (if subtract_again then false else sk_modq s) (sk_written s) (sk_inflight s) (sk_client s) (sk_pcA s) 4)
+         | 4 => if sk_pcA s =? 2
+                then Some (mkSk false (sk_written s) (sk_inflight s) (sk_client s || sk_modq s) (sk_pcA s) 5)
+                else None
+         | _ => None
+         end
+  | _ => None
+  end.
+Definition sk_init : sk_st := mkSk false false false false 0 0.
+Definition sk_ok (s : sk_st) : bool := negb ((sk_pcA s =? 2) && (sk_pcO s =? 5)) || sk_client s.
+
 (* ================================================================== 5. lock order
    mutex classes, numbered by their rank: sendMutex of the client at list position k,
    screen->cursorMutex, updateMutex k, rfbClientListMutex, refCountMutex k, outputMutex k *)
